@@ -64,8 +64,8 @@ Print Assumptions C16_defined_escape_exact.
 
 (* 3. rows read with omit_content (everything under a false include_if head): nothing is handed
    to the template engine, nothing is produced, the context is untouched; for every sheet *)
-Theorem C16_skipped_not_evaluated : forall pe pn rows fuel bt pos cx log log' r,
-  parse_block pe pn rows fuel bt true pos cx log = (log', r) ->
+Theorem C16_skipped_not_evaluated : forall pe pn sc em tl rows fuel bt pos cx log log' r,
+  parse_block pe pn sc em tl rows fuel bt true pos cx log = (log', r) ->
   (exists ev, log' = log ++ ev /\ Forall untemplated_row ev)
   /\ (forall p cx', r = Ok (p, cx') -> cx' = cx).
 Proof. exact skipped_not_evaluated. Qed.
@@ -81,9 +81,9 @@ Theorem C16_excluded_row_not_evaluated : forall pe pn cx r log pi s,
 Proof. exact excluded_row_not_evaluated. Qed.
 Print Assumptions C16_excluded_row_not_evaluated.
 
-Theorem C16_skipped_policy_independent : forall pe pn pe' pn' rows fuel bt pos cx log,
-  fst (parse_block pe pn rows fuel bt true pos cx log) = fst (parse_block pe' pn' rows fuel bt true pos cx log)
-  /\ snd (parse_block pe pn rows fuel bt true pos cx log) = snd (parse_block pe' pn' rows fuel bt true pos cx log).
+Theorem C16_skipped_policy_independent : forall pe pn pe' pn' sc em tl rows fuel bt pos cx log,
+  fst (parse_block pe pn sc em tl rows fuel bt true pos cx log) = fst (parse_block pe' pn' sc em tl rows fuel bt true pos cx log)
+  /\ snd (parse_block pe pn sc em tl rows fuel bt true pos cx log) = snd (parse_block pe' pn' sc em tl rows fuel bt true pos cx log).
 Proof. exact skipped_policy_independent. Qed.
 Print Assumptions C16_skipped_policy_independent.
 
